@@ -7,6 +7,7 @@ package main
 import (
 	"fmt"
 	"go/token"
+	"go/types"
 	"sort"
 
 	"golang.org/x/tools/go/ssa"
@@ -92,6 +93,103 @@ func constraintSet(op token.Token, k int64, u ival) iset {
 	return iset{u}
 }
 
+// tableOf, when set, gives the constant entries of a package-level array that is declared with a literal and
+// written nowhere else (index -> value); it lets a guard `table[v] != 0` constrain v.
+var tableOf func(g *ssa.Global) (map[int64]int64, bool)
+
+// tableIndexed: x is table[v] (a load of &table[v], v possibly converted) for a package-level array.
+func tableIndexed(x ssa.Value, v ssa.Value) (*ssa.Global, bool) {
+	u, ok := x.(*ssa.UnOp)
+	if !ok || u.Op != token.MUL {
+		return nil, false
+	}
+	ia, ok := u.X.(*ssa.IndexAddr)
+	if !ok {
+		return nil, false
+	}
+	g, ok := ia.X.(*ssa.Global)
+	if !ok {
+		return nil, false
+	}
+	idx := ia.Index
+	if cv, ok := idx.(*ssa.Convert); ok {
+		idx = cv.X
+	}
+	if !sameVal(idx, v) {
+		return nil, false
+	}
+	return g, true
+}
+
+// guardSet: the values of v (within u) for which guard g holds, when g is a comparison of v with a
+// constant or of table[v] with a constant; ok is false for other guards.
+func guardSet(g guard, v ssa.Value, u ival) (iset, bool) {
+	g = normGuard(g)
+	x, op, k, ok := intCmp(g.cond)
+	if !ok {
+		return nil, false
+	}
+	if !g.val {
+		op = negOp(op)
+	}
+	if sameVal(x, v) {
+		return constraintSet(op, k, u), true
+	}
+	if tab, isT := tableIndexed(x, v); isT && tableOf != nil {
+		ents, known := tableOf(tab)
+		if !known {
+			return nil, false
+		}
+		// the table's length bounds v on this path as well (an index out of range panics)
+		var out iset
+		n := int64(0)
+		for i := range ents {
+			if i+1 > n {
+				n = i + 1
+			}
+		}
+		if at, ok := tab.Type().Underlying().(*types.Pointer).Elem().Underlying().(*types.Array); ok {
+			n = at.Len()
+		}
+		for i := int64(0); i < n; i++ {
+			val := ents[i] // zero when not listed
+			hold := false
+			switch op {
+			case token.EQL:
+				hold = val == k
+			case token.NEQ:
+				hold = val != k
+			case token.LSS:
+				hold = val < k
+			case token.LEQ:
+				hold = val <= k
+			case token.GTR:
+				hold = val > k
+			case token.GEQ:
+				hold = val >= k
+			}
+			if hold && i >= u.lo && i <= u.hi {
+				out = append(out, ival{i, i})
+			}
+		}
+		return out.norm(), true
+	}
+	return nil, false
+}
+
+// reachSetEdge: the values of v for which the edge pred -> succ can be taken.
+func reachSetEdge(pred, succ *ssa.BasicBlock, v ssa.Value, u ival) iset {
+	s := reachSet(pred, v, u)
+	if len(pred.Instrs) > 0 {
+		if ifi, ok := pred.Instrs[len(pred.Instrs)-1].(*ssa.If); ok && pred.Succs[0] != pred.Succs[1] {
+			if cs, ok := guardSet(guard{ifi.Cond, pred.Succs[0] == succ, ifi}, v, u); ok {
+				s = s.intersect(cs)
+			}
+		}
+	}
+	return s
+}
+
 // reachSet: the set of values of v for which block b can be reached, using only comparisons of
 // v with constants in dominating guards (other guards are ignored: over-approximation).
 func reachSet(b *ssa.BasicBlock, v ssa.Value, u ival) iset {
@@ -108,12 +206,8 @@ func reachSetD(b *ssa.BasicBlock, v ssa.Value, u ival, depth int) iset {
 			constrained := false
 			if len(p.Instrs) > 0 {
 				if ifi, ok := p.Instrs[len(p.Instrs)-1].(*ssa.If); ok && p.Succs[0] != p.Succs[1] {
-					g := normGuard(guard{ifi.Cond, p.Succs[0] == b, ifi})
-					if x, op, k, ok := intCmp(g.cond); ok && sameVal(x, v) {
-						if !g.val {
-							op = negOp(op)
-						}
-						es = es.intersect(constraintSet(op, k, u))
+					if cs, ok := guardSet(guard{ifi.Cond, p.Succs[0] == b, ifi}, v, u); ok {
+						es = es.intersect(cs)
 						constrained = true
 					}
 				}
@@ -129,15 +223,9 @@ func reachSetD(b *ssa.BasicBlock, v ssa.Value, u ival, depth int) iset {
 	}
 	s := iset{u}
 	for _, g := range blockGuards(b) {
-		g = normGuard(g)
-		x, op, k, ok := intCmp(g.cond)
-		if !ok || !sameVal(x, v) {
-			continue
+		if cs, ok := guardSet(g, v, u); ok {
+			s = s.intersect(cs)
 		}
-		if !g.val {
-			op = negOp(op)
-		}
-		s = s.intersect(constraintSet(op, k, u))
 	}
 	return s
 }
